@@ -55,8 +55,11 @@ class Frame:
 class Engine:
     MAX_DEPTH = 8
 
-    def __init__(self, repo, models=None, inline=(), invariants=None, name_calls=None, on_unsupported=None, alloc=None):
+    def __init__(self, repo, models=None, inline=(), invariants=None, name_calls=None, on_unsupported=None, alloc=None, options=None):
         self.repo = repo
+        # options: kinds = {code: python class} for heap objects whose class is the symbolic field `kind` (code 0 = None, id -1);
+        #          alloc_lists = True: an empty list display allocates a list object with identity on the z3 heap
+        self.options = dict(options or {})
         self.models = dict(models or {})          # live function/class object -> model
         self.name_calls = dict(name_calls or {})  # call-site spelling -> model (takes precedence)
         self.inline = set(inline)                 # live function objects that may be inlined
@@ -402,6 +405,8 @@ class Engine:
     def unwrap_ref(self, v):
         if isinstance(v, Ref):
             return v.t
+        if v is None and self.options.get("kinds"):
+            return NONE_T
         return S(v)
 
     def store_item(self, o, i, v, st):
@@ -426,6 +431,26 @@ class Engine:
             if "refs_nonempty" in zh:
                 zh["refs_nonempty"] = z3.Store(zh["refs_nonempty"], o.owner.t, z3.BoolVal(True))
             yield ("fall", None, st.with_zh(zh))
+            return
+        if isinstance(o, LRef):
+            zh = dict(st.zh)
+            if isinstance(i, SliceV):
+                if not (i.lo is None and i.hi is None):
+                    raise Unsupported("slice store other than [:]")
+                c = self.contents(v, st) if isinstance(v, (SList, LRef)) else None
+                if c is None:
+                    raise Unsupported("slice store of %r" % (v,))
+                zh["L_n"] = z3.Store(zh["L_n"], o.id, c.n)
+                zh["L_e"] = z3.Store(zh["L_e"], o.id, c.el)
+                yield ("fall", None, st.with_zh(zh))
+                return
+            n = zh["L_n"][o.id]; el = zh["L_e"][o.id]
+            idx = S(i)
+            inb = z3.And(0 <= idx, idx < n)            # negative indices: out of the modelled subset, reported as IndexError obligation
+            if self.feasible(st, z3.Not(inb)):
+                yield ("raise", Exc(IndexError), st.assume(z3.Not(inb)))
+            zh["L_e"] = z3.Store(zh["L_e"], o.id, z3.Store(el, idx, self.unwrap_ref(v)))
+            yield ("fall", None, st.assume(inb).with_zh(zh))
             return
         if isinstance(o, dict):
             ci = conc(i)
@@ -534,7 +559,10 @@ class Engine:
         enum = isinstance(it, EnumIter)
         lst = it.lst if enum else it
         if isinstance(lst, LRef):
-            raise Unsupported("loop over list object: use by-value snapshot in the contract")
+            if not spec.get("live"):
+                raise Unsupported("loop over list object: use by-value snapshot in the contract")
+            yield from self.live_loop(s, lst, enum, spec, key, st)
+            return
         inv = spec["inv"]
         self.obl.append(("%s#loop%d:init" % key, st, inv(z3.IntVal(0), st)))
         i = fresh("i", I)
@@ -559,6 +587,36 @@ class Engine:
                     else:
                         yield (kind2, val2, st3)
         yield ("fall", None, head.assume(i >= lst.n))
+
+    def live_loop(self, s, lref, enum, spec, key, st):
+        """for x in <list object>: Python's list iterator is an index cursor that reads the CURRENT list at every step and stops when
+        the cursor reaches the CURRENT length; the list may be written by the body.  Heap fields named in modheap are havocked at the
+        loop head and constrained by the invariant only."""
+        inv = spec["inv"]
+        self.obl.append(("%s#loop%d:init" % key, st, inv(z3.IntVal(0), st)))
+        i = fresh("i", I)
+        st1 = st
+        for name, mk in spec.get("mod", {}).items():
+            st1 = st1.bind(name, mk(name))
+        zh = dict(st1.zh)
+        for f in spec.get("modheap", ()):
+            zh[f] = fresh("H_" + f, zh[f].sort())
+        st1 = st1.with_zh(zh)
+        head = st1.assume(0 <= i, inv(i, st1))
+        n_cur = head.zh["L_n"][lref.id]
+        body_st = head.assume(i < n_cur)
+        elem = lref.mk(head.zh["L_e"][lref.id][i])
+        tgtval = (i, elem) if enum else elem
+        if self.feasible(body_st):
+            for kind, val, st2 in self.assign(s.target, tgtval, body_st):
+                for kind2, val2, st3 in self.block(s.body, st2):
+                    if kind2 in ("fall", "continue"):
+                        self.obl.append(("%s#loop%d:preserved" % key, st3, inv(i + 1, st3)))
+                    elif kind2 == "break":
+                        raise Unsupported("break in invariant loop")
+                    else:
+                        yield (kind2, val2, st3)
+        yield ("fall", None, head.assume(i >= n_cur))
 
     def s_While(self, s, st):
         raise Unsupported("while loop")
@@ -646,6 +704,8 @@ class Engine:
                 yield ("val", RefsDict(o), st)
             elif attr in st.zh:
                 v = z3.Select(st.zh[attr], o.t)
+                if attr in self.options.get("ref_fields", ()):
+                    v = Ref(v)
                 yield ("val", v, st)
             elif o.cls is not None:
                 yield from self.class_attr(o, o.cls, attr, st)
@@ -734,6 +794,13 @@ class Engine:
             yield (tag, tuple(vs) if tag == "val" else vs, st2)
 
     def e_List(self, e, st):
+        if not e.elts and self.options.get("alloc_lists") and "next_list" in st.zh:
+            zh = dict(st.zh)
+            nid = zh["next_list"]
+            zh["next_list"] = nid + 1
+            zh["L_n"] = z3.Store(zh["L_n"], nid, z3.IntVal(0))
+            yield ("val", LRef(nid, self.options.get("list_mk")), st.with_zh(zh))
+            return
         for tag, vs, st2 in self.seq(e.elts, st):
             yield (tag, list(vs) if tag == "val" else vs, st2)
 
@@ -889,6 +956,9 @@ class Engine:
             return a.isnone
         if isinstance(b, Opt) and a is None:
             return b.isnone
+        if self.options.get("kinds") and ((isinstance(a, Ref) and a.cls is None and b is None) or (isinstance(b, Ref) and b.cls is None and a is None)):
+            r = a if isinstance(a, Ref) else b
+            return r.t == NONE_T
         if a is None or b is None:
             return z3.BoolVal(a is None and b is None)
         if isinstance(a, Obj) and isinstance(b, Obj):
@@ -988,6 +1058,18 @@ class Engine:
         if isinstance(op, ast.Mod) and isinstance(a, str):
             yield ("val", Unknown("fmt"), st); return
         raise Unsupported("binop %s on %r, %r" % (type(op).__name__, a, b))
+
+    def e_Slice(self, e, st):
+        if e.step is not None:
+            raise Unsupported("slice step")
+        parts = [p for p in (e.lower, e.upper) if p is not None]
+        for tag, vs, st2 in self.seq(parts, st):
+            if tag == "raise":
+                yield (tag, vs, st2); continue
+            vs = list(vs)
+            lo = vs.pop(0) if e.lower is not None else None
+            hi = vs.pop(0) if e.upper is not None else None
+            yield ("val", SliceV(lo, hi), st2)
 
     # ---------- subscripts
     def e_Subscript(self, e, st):
@@ -1140,6 +1222,9 @@ class Engine:
             if isinstance(it, (SList, LRef)) and not g.ifs:
                 yield from self.map_alloc(e, g, self.contents(it, st2), st2)
                 continue
+            if isinstance(it, (SList, LRef)) and g.ifs and isinstance(e.elt, ast.Name) and isinstance(g.target, ast.Name) and e.elt.id == g.target.id:
+                yield from self.filter_list(g, self.contents(it, st2), st2)
+                continue
             if not isinstance(it, (list, tuple, range)):
                 raise Unsupported("comprehension over %r" % (it,))
             saved = st2.env
@@ -1165,6 +1250,39 @@ class Engine:
                                 yield from go(items[1:], acc, st5.assume(z3.Not(t)))
                     yield from conds(list(g.ifs), st3)
             yield from go(list(it), [], st2)
+
+    def filter_list(self, g, lst, st):
+        """[x for x in <symbolic list> if c(x)]: a fresh list characterised by the axioms of a filter (all true of Python's
+        comprehension): an increasing index map f from the result into the source whose image is exactly the positions satisfying c."""
+        x = fresh("x!flt", I)
+        saved = st.env
+        conds = []
+        st_c = st.bind(g.target.id, lst.mk(x))
+        def ev_all(cs, st4):
+            if not cs:
+                yield ("val", [], st4); return
+            for tag, c, st5 in self.expr(cs[0], st4):
+                if tag == "raise":
+                    raise Unsupported("filter condition may raise")
+                for tag2, rest, st6 in ev_all(cs[1:], st5):
+                    yield ("val", [self.truth(c)] + rest, st6)
+        outs = list(ev_all(list(g.ifs), st_c))
+        if len(outs) != 1 or len(outs[0][2].pc) != len(st_c.pc):
+            raise Unsupported("filter condition is not a single pure expression")
+        phi = z3.And(*outs[0][1]) if outs[0][1] else z3.BoolVal(True)
+        def cond(t):
+            return z3.substitute(phi, (x, t))
+        _ctr_n = fresh("n!flt", I)
+        el2 = fresh("el!flt", z3.ArraySort(I, I))
+        f = z3.Function("f!flt%d" % id(el2), I, I)
+        ginv = z3.Function("g!flt%d" % id(el2), I, I)
+        k, k2, i = z3.Int("k!flt"), z3.Int("k2!flt"), z3.Int("i!flt")
+        n2 = _ctr_n
+        ax = [0 <= n2, n2 <= lst.n,
+              z3.ForAll([k], z3.Implies(z3.And(0 <= k, k < n2), z3.And(0 <= f(k), f(k) < lst.n, cond(lst.el[f(k)]), el2[k] == lst.el[f(k)]))),
+              z3.ForAll([k, k2], z3.Implies(z3.And(0 <= k, k < k2, k2 < n2), f(k) < f(k2))),
+              z3.ForAll([i], z3.Implies(z3.And(0 <= i, i < lst.n, cond(lst.el[i])), z3.And(0 <= ginv(i), ginv(i) < n2, f(ginv(i)) == i)))]
+        yield ("val", SList(n2, el2, lst.mk), st.with_env(saved).assume(*ax))
 
     def map_alloc(self, e, g, lst, st):
         """[C(f1(x), f2(x)) for x in <symbolic list>] with C an allocatable class: n fresh objects (ids next..next+n-1) whose
